@@ -720,6 +720,14 @@ fn oracle_set(rec: &mut Recorder, case_rent: (u64, u64), l: &str, ans: &str, bef
     let (Some(f), Some(r), Some(tgt)) = (parse_key(t[3]), parse_key(t[4]), parse_key(t[5])) else { return };
     let funder_op = t[2] == "normalize" || t[2] == "receive";
     let (declared, bystander) = if funder_op { (f, r) } else { (r, f) };
+    // the set declares (and its validation caches) both a funder and a recipient, in either order:
+    // the cached cleanup must find them
+    {
+        let res = ans.split(" cpis=").next().unwrap_or("");
+        if res == "err:Custom1004" || res == "err:Custom1005" {
+            rec.fail("declared_recipient_not_cached", &format!("{l} -> {ans}: the set declares both a funder and a recipient"));
+        }
+    }
     if bystander != declared && bystander != tgt && find(before, &bystander).lamports != find(after, &bystander).lamports {
         rec.fail("cleanup_pays_wrong_account", &format!("{l} -> {ans}: {} changed by {} although the declared counterpart is {}", khex(&bystander), find(after, &bystander).lamports as i128 - find(before, &bystander).lamports as i128, khex(&declared)));
     }
@@ -744,6 +752,18 @@ fn oracle_clean_op(rec: &mut Recorder, case_rent: (u64, u64), op: CleanOp, other
     }
     if total(before) >= 1u128 << 64 {
         return; // outside the property's quantifier
+    }
+    // "an account with zero lamports is left alone": normalize / receive on a 0-lamport account must
+    // return Ok and change nothing (refund's InsufficientFunds on 0 lamports is documented, D13 notes).
+    // Only judged when the call reached the operation (set validation errors are not the operation's).
+    if (op.op == "normalize" || op.op == "receive") && find(before, &op.tgt).lamports == 0 && other.is_some() {
+        let validation_err = ["err:Custom1000", "err:Custom1001", "err:Custom1003", "err:Custom9001", "err:AccountDataTooSmall", "err:InvalidAccountOwner"].contains(&res);
+        // a BorshAccount cleanup legitimately re-serializes the value first: only balances are compared there
+        let lam = |s: &[AcctSpec]| s.iter().map(|a| a.lamports).collect::<Vec<_>>();
+        let changed = if l.contains(" borsh ") { lam(before) != lam(after) } else { before != after };
+        if !validation_err && (res != "ok" || changed || _log != "-") {
+            rec.fail("zero_lamport_account_not_left_alone", &format!("{l} -> {ans}"));
+        }
     }
     if total(before) != total(after) {
         rec.fail("cleanup_lamports_not_conserved", &format!("{l} -> {ans}: sum {} -> {}", total(before), total(after)));
